@@ -257,9 +257,30 @@ class Env:
                 'cells': cells, 'loglen': len(self.logl)}
 
     def tick(self):
-        q = main._clock_scheduler.queue
-        if q.empty():
+        """one iteration of the REAL ClockScheduler.run(): the scheduler's queue is wrapped so that
+        the loop sees it empty after one pop (everything else goes to the real TaskQueue)"""
+        sched = main._clock_scheduler
+        real = sched.queue
+        if real.empty():
             return ['ret', None]
+
+        class OneShot:
+            def __init__(self):
+                self.popped = False
+
+            def empty(self):
+                return self.popped or real.empty()
+
+            def pop(self):
+                self.popped = True
+                return real.pop()
+
+            def __getattr__(self, name):
+                return getattr(real, name)
+
+            def __iter__(self):
+                return iter(real)
+
         seen = []
         orig = Routine.__awake__
 
@@ -272,10 +293,11 @@ class Env:
             seen.append(['ret', v])
             return v
         Routine.__awake__ = spy
+        sched.queue = OneShot()
         try:
-            time, task = q.pop()
-            task._wakeup(time)
+            sched.run()
         finally:
+            sched.queue = real
             Routine.__awake__ = orig
         return seen[0] if seen else ['exc', 99]
 
